@@ -243,6 +243,36 @@ def build(tier="quick", seed=0):
         pack.add(Obligation(name, lambda tier, name=name, th=th, typename=typename, extra=extra: prove_paths(name, th, lambda p: (not (p.value[1] or p.value[2]), f"after x += {extra} the {typename} field is not well typed / packable / unchanged: {p.value[1] or p.value[2]}"), lambda m, p: {}),
                             replay=lambda w, typename=typename, extra=extra: {"call": "c05_iadd", "args": {"ftype": typename, "extra": extra}}, functions=FU, mode="representative additions"))
 
+    # ---- A2f. "naive timestamps become UTC" - whatever form the naive value arrives in (text, bytes, datetime object, list element, assignment) and whatever
+    #      the display time zone is set to (the display setting is about printing)
+    import datetime as _dtm
+    import zoneinfo as _zi
+
+    for disp_name, disp in (("UTC", _dtm.timezone.utc), ("Europe/Amsterdam", _zi.ZoneInfo("Europe/Amsterdam")), ("a fixed offset of -07:00", _dtm.timezone(_dtm.timedelta(hours=-7))), ("no display zone", None)):
+        for form, src in (("text", "'2024-07-01T12:00:00'"), ("text with a blank", "'2024-01-15 08:30:00.5'"), ("bytes", "b'2024-07-01T12:00:00'"), ("naive datetime object", "DT(2024, 7, 1, 12, 0, 0)")):
+            name = f"C05.naive_is_utc[{form} {src}, display zone {disp_name}]"
+
+            def th(src=src, disp=disp):
+                saved = ft.g["DISPLAY_TZINFO"]
+                ft.g["DISPLAY_TZINFO"] = disp
+                try:
+                    D = it.call(RD, ["c05/ts", [("datetime", "x"), ("datetime[]", "l")]], {})
+                    r = it.call(D, [], {"x": pyvalue(src), "l": [pyvalue(src)]})
+                    r2 = it.call(D, [], {})
+                    it.setattr_(r2, "x", pyvalue(src))
+                    vals = [r.attrs["x"], r.attrs["l"].base[0], r2.attrs["x"]]
+                    return [(it.unbase(v).utcoffset(), it.unbase(v).replace(tzinfo=None).isoformat()) for v in vals]
+                finally:
+                    ft.g["DISPLAY_TZINFO"] = saved
+
+            def judge(p, src=src):
+                want = eval(src, dict(V.NS))
+                want = _dtm.datetime.fromisoformat(want.decode() if isinstance(want, bytes) else want) if not isinstance(want, _dtm.datetime) else want
+                ok = all(off == _dtm.timedelta(0) and wall == want.isoformat() for off, wall in p.value)
+                return ok, f"a naive timestamp given as {src} is held as {p.value!r}: must be the same wall clock at UTC offset 0"
+
+            pack.add(Obligation(name, lambda tier, name=name, th=th, judge=judge: prove_paths(name, th, judge, lambda m, p: {}), replay=lambda w, src=src, disp_name=disp_name: {"call": "c05_naive", "args": {"src": src, "display": disp_name}}, functions=FU, mode="representative values x display zones"))
+
     # ---- A3. a number that is not an integer offered to an integer-valued field: converted to an integer or rejected - never kept as it is
     for typename, src, must_reject in (("uint16", "1.5", False), ("uint32", "2.5", False), ("net.tcp.Port", "80.5", False), ("uint16", "80.0", False), ("boolean", "0.5", True), ("boolean", "1.0", False), ("uint16[]", "1.5", False), ("uint16", "65535.5", True)):
         name = f"C05.nonintegral[{typename} <- {src}]"
